@@ -143,10 +143,11 @@ Inductive side := SCtor | SSetter.
 Definition side_eqb (a b : side) : bool :=
   match a, b with SCtor, SCtor | SSetter, SSetter => true | _, _ => false end.
 
-(* the four ways a value reaches a field *)
-Inductive path := PCtor | PYaml | PAttr | PSweep.
+(* the ways a value reaches a field *)
+Inductive path := PCtor | PYaml | PAttr | PSweep
+  | PFromDict.   (* <Class>.from_dict({...}): the entry point of detectors read back from a file *)
 Definition side_of_path (p : path) : side :=
-  match p with PCtor | PYaml => SCtor | PAttr | PSweep => SSetter end.
+  match p with PCtor | PYaml | PFromDict => SCtor | PAttr | PSweep => SSetter end.
 
 (* regenerated: field -> (constructor guard, setter guard) *)
 Definition guard_table := list (fkey * (guard * guard)).
@@ -162,6 +163,76 @@ Definition pick (s : side) (gs : guard * guard) : guard :=
 
 Definition guard_at (gt : guard_table) (f : fkey) (s : side) : option guard :=
   option_map (pick s) (lookup_guards gt f).
+
+(* ------------------------------------------------------------------------------------------ what is stored *)
+
+(* What the constructor / the setter keeps of an accepted value (regenerated: Gen_C12.src_stores reads the
+   assignment `self._<field> = <expr>`):
+     StId          self._f = f                         (also a re-packed tuple of the elements of f)
+     StFloatIf p   self._f = float(f) if <p> else f    (plain float(f) is StFloatIf PAlways)
+     StInt         self._f = int(f)                    truncation towards zero: NOT the written value
+     StNone        nothing is stored (a constructor parameter without setter)                           *)
+Inductive storeop := StId | StFloatIf (p : precond) | StInt | StNone.
+
+(* truncation towards zero, as int() does *)
+Definition q_trunc (q : Q) : Q := inject_Z (Z.quot (Qnum q) (Zpos (Qden q))).
+
+(* float(x): None and a list raise TypeError *)
+Definition float_of (x : value) : option value :=
+  match x with
+  | VNum q | VNpNum q => Some (VNum q)
+  | VNaN | VNpNaN => Some VNaN
+  | VInf p => Some (VInf p)
+  | VNone | VSeq _ => None
+  end.
+
+(* int(x): int(nan) raises ValueError, int(inf) OverflowError, None / list TypeError *)
+Definition int_of (x : value) : option value :=
+  match x with
+  | VNum q | VNpNum q => Some (VNum (q_trunc q))
+  | _ => None
+  end.
+
+(* None = the store itself raises *)
+Definition stored (op : storeop) (x : value) : option value :=
+  match op with
+  | StId => Some x
+  | StFloatIf p => if pre_fires p x then float_of x else Some x
+  | StInt => int_of x
+  | StNone => None
+  end.
+
+Definition is_some {A} (o : option A) : bool := match o with Some _ => true | None => false end.
+
+(* the same value, whatever carries it *)
+Definition value_same (a b : value) : bool :=
+  match core_of a, core_of b with
+  | VNone, VNone => true
+  | VNum p, VNum q => Qeq_bool p q
+  | VNaN, VNaN => true
+  | VSeq n, VSeq m => Nat.eqb n m
+  | VInf p, VInf q => Bool.eqb p q
+  | _, _ => false
+  end.
+
+(* regenerated: field -> (what the constructor stores, what the setter stores) *)
+Definition store_table := list (fkey * (storeop * storeop)).
+
+Fixpoint lookup_stores (st : store_table) (f : fkey) : option (storeop * storeop) :=
+  match st with
+  | [] => None
+  | (k, v) :: rest => if fkey_eqb k f then Some v else lookup_stores rest f
+  end.
+
+Definition pick_store (s : side) (ops : storeop * storeop) : storeop :=
+  match s with SCtor => fst ops | SSetter => snd ops end.
+
+Definition store_at (st : store_table) (f : fkey) (s : side) : option storeop :=
+  option_map (pick_store s) (lookup_stores st f).
+
+(* a value goes in: the guard lets it through AND the store does not raise *)
+Definition goes_in (g : guard) (op : storeop) (x : value) : bool :=
+  accepts g x && is_some (stored op x).
 
 (* ------------------------------------------------------------------------------------------ documented ranges *)
 
@@ -361,6 +432,22 @@ Definition check_side (g : guard) (d : drange) (k : vclass) : bool :=
       end
   end.
 
+(* SOUND: true -> every well-kinded value that is accepted is stored with its own value *)
+Definition check_store (op : storeop) (d : drange) : bool :=
+  match op, d with
+  | StId, _ => true
+  | StFloatIf _, DRange _ _ => true
+  | _, _ => false
+  end.
+
+Definition check_store_row (st : store_table) (r : docrow) : bool :=
+  match lookup_stores st (d_key r) with
+  | None => false
+  | Some ops => check_store (fst ops) (d_range r) && check_store (snd ops) (d_range r)
+  end.
+
+Definition check_stores (docs : list docrow) (st : store_table) : bool := forallb (check_store_row st) docs.
+
 Definition exceptions := list (fkey * side * vclass).
 
 Definition excepted (exc : exceptions) (f : fkey) (s : side) (k : vclass) : bool :=
@@ -417,17 +504,42 @@ Definition unlisted_guards (docs : list docrow) (gt : guard_table) : list fkey :
 
 (* ------------------------------------------------------------------------------------------ exactly one *)
 
+(* what a document holds under a top-level key: nothing, `key:` (null), `key: {}`, or a filled section *)
+Inductive sstate := SAbsent | SNull | SEmptyMap | SFilled.
+
+Definition st_present (s : sstate) : bool := match s with SAbsent => false | _ => true end.
+Definition st_filled (s : sstate) : bool := match s with SFilled => true | _ => false end.
+
+(* HOW a check counts the sections (regenerated):
+     CMPresent   sum(key in dct for key in keys)
+     CMNotNone   sum(dct.get(key) is not None for key in keys)   /  sum(el is not None for el in <built objects>)
+     CMTruthy    sum(bool(dct.get(key)) for key in keys)                                                     *)
+Inductive cntmethod := CMPresent | CMNotNone | CMTruthy.
+
+Definition counts (m : cntmethod) (s : sstate) : bool :=
+  match m, s with
+  | CMPresent, SAbsent => false
+  | CMPresent, _ => true
+  | CMNotNone, (SAbsent | SNull) => false
+  | CMNotNone, _ => true
+  | CMTruthy, SFilled => true
+  | CMTruthy, _ => false
+  end.
+
 Inductive cntop := CNe | CLt | CGt | CEq.             (* if count <op> n: raise *)
-Record presence_check := PCheck { pc_site : string; pc_keys : list string; pc_op : cntop; pc_n : Z }.
+Record presence_check := PCheck { pc_site : string; pc_keys : list string; pc_how : cntmethod; pc_op : cntop; pc_n : Z }.
 
 Definition count_present (keys : list string) (present : string -> bool) : Z :=
   Z.of_nat (List.length (filter present keys)).
 
+Definition count_sections (how : cntmethod) (keys : list string) (st : string -> sstate) : Z :=
+  count_present keys (fun k => counts how (st k)).
+
 Definition cnt_raises (op : cntop) (c n : Z) : bool :=
   match op with CNe => negb (c =? n) | CLt => c <? n | CGt => c >? n | CEq => c =? n end.
 
-Definition config_accepts (checks : list presence_check) (present : string -> bool) : bool :=
-  forallb (fun c => negb (cnt_raises (pc_op c) (count_present (pc_keys c) present) (pc_n c))) checks.
+Definition checks_pass (checks : list presence_check) (st : string -> sstate) : bool :=
+  forallb (fun c => negb (cnt_raises (pc_op c) (count_sections (pc_how c) (pc_keys c) st) (pc_n c))) checks.
 
 (* LITERAL: the three running modes and the four detector types of the property text *)
 Definition mode_keys : list string := ["exposure"; "observation"; "calibration"]%string.
@@ -450,7 +562,10 @@ Fixpoint list_string_eqb (a b : list string) : bool :=
 Definition check_is (keys : list string) (c : presence_check) : bool :=
   list_string_eqb (pc_keys c) keys && match pc_op c with CNe => true | _ => false end && (pc_n c =? 1).
 
-(* every check of the source is "exactly one mode" or "exactly one detector", and both occur *)
+Definition counts_presence (c : presence_check) : bool :=
+  match pc_how c with CMPresent => true | _ => false end.
+
+(* every check is "exactly one mode" or "exactly one detector", and both occur *)
 Definition checks_ok (checks : list presence_check) : bool :=
   forallb (fun c => check_is mode_keys c || check_is detector_keys c) checks &&
   existsb (check_is mode_keys) checks && existsb (check_is detector_keys) checks.
@@ -461,6 +576,39 @@ Fixpoint first_present (keys : list string) (present : string -> bool) : option 
   | [] => None
   | k :: rest => if present k then Some k else first_present rest present
   end.
+
+Definition str_mem (k : string) (l : list string) : bool := existsb (String.eqb k) l.
+
+(* THE LOADER (_build_configuration): the count checks on the document (`pre`, each with its way of counting);
+   the two if/elif chains hand the FIRST key that is IN the document (`"k" in dct`, whatever it holds) to its builder
+   (`mdisp`, `ddisp`: the keys in the order of the chains, regenerated); Configuration(...) then re-counts the objects
+   that were built (`post`).  Some (m, d) = the sections m and d are handed to their builders; None = refused. *)
+Definition built_state (m d k : string) : sstate :=
+  if String.eqb k m || String.eqb k d then SFilled else SAbsent.
+
+Definition dispatch (pre post : list presence_check) (mdisp ddisp : list string) (st : string -> sstate)
+  : option (string * string) :=
+  if checks_pass pre st then
+    match first_present mdisp (fun k => st_present (st k)), first_present ddisp (fun k => st_present (st k)) with
+    | Some m, Some d => if checks_pass post (built_state m d) then Some (m, d) else None
+    | _, _ => None
+    end
+  else None.
+
+(* k is the one key of `keys` the document holds *)
+Definition only_present (keys : list string) (st : string -> sstate) (k : string) : Prop :=
+  In k keys /\ st k <> SAbsent /\ forall k', In k' keys -> st k' <> SAbsent -> k' = k.
+
+Definition same_keys (a b : list string) : bool :=
+  forallb (fun k => str_mem k b) a && forallb (fun k => str_mem k a) b.
+
+(* what the theorem needs of the regenerated loader: the checks on the document are the two exactly-one checks and they
+   count PRESENCE (a section left empty counts); the checks on the built objects are exactly-one checks; the chains
+   know exactly the mode keys / the detector keys *)
+Definition loader_ok (pre post : list presence_check) (mdisp ddisp : list string) : bool :=
+  checks_ok pre && forallb counts_presence pre &&
+  forallb (fun c => check_is mode_keys c || check_is detector_keys c) post &&
+  same_keys mdisp mode_keys && same_keys ddisp detector_keys.
 
 (* ------------------------------------------------------------------------------------------ settings *)
 
@@ -565,8 +713,6 @@ Definition readout_settings : list string := ["times"; "start_time"; "non_destru
 
 Definition readout_key (k : string) : string := ("mode.readout." ++ k)%string.
 
-Definition str_mem (k : string) (l : list string) : bool := existsb (String.eqb k) l.
-
 (* every setting of a readout is carried by replace(), and replace() passes nothing the constructor does not take *)
 Definition carries_all (params carried : list string) : bool :=
   forallb (fun k => str_mem k carried) readout_settings &&
@@ -633,16 +779,54 @@ Fixpoint indices_where {A} (p : A -> bool) (l : list A) (i : Z) : list Z :=
   | x :: rest => if p x then i :: indices_where p rest (i + 1) else indices_where p rest (i + 1)
   end.
 
-(* one value driven into one field along one path; observed = was it accepted *)
-Record gcase := GCase { gc_key : fkey; gc_path : path; gc_x : value; gc_accepted : bool }.
+(* one value driven into one field along one path; observed = was it accepted, and what the field holds afterwards
+   (gc_stored = None: not read back).  gc_int: the number is carried by an integer type (python int, numpy.int64 ...). *)
+Record gcase := GCase { gc_key : fkey; gc_path : path; gc_x : value; gc_int : bool; gc_accepted : bool;
+                        gc_stored : option value }.
 
-Definition gcase_mismatch (gt : guard_table) (c : gcase) : bool :=
-  match guard_at gt (gc_key c) (side_of_path (gc_path c)) with
-  | Some g => negb (Bool.eqb (accepts g (gc_x c)) (gc_accepted c))
-  | None => true
+(* LITERAL: the fields that give the shape of the frames.  A detector is built right after its geometry when a document
+   is loaded, and numpy refuses a shape that is not made of integers (a float is refused whatever its value): on the
+   YAML path a float in one of these fields may be refused downstream of the guard, so the comparison with the guard
+   is one-directional there (accepted by the load => accepted by the guard). *)
+Definition allocated_fields : list fkey := [(CGeometry, "row"%string); (CGeometry, "col"%string)].
+
+Definition alloc_strict (c : gcase) : bool :=
+  match gc_path c with
+  | PYaml => existsb (fkey_eqb (gc_key c)) allocated_fields && negb (gc_int c)
+  | _ => false
   end.
 
-(* the specification: accepted iff inside the documented range (None: iff optional, constructor only) *)
+Definition gcase_mismatch (gt : guard_table) (st : store_table) (c : gcase) : bool :=
+  let s := side_of_path (gc_path c) in
+  match guard_at gt (gc_key c) s, store_at st (gc_key c) s with
+  | Some g, Some op =>
+      let m := goes_in g op (gc_x c) in
+      if alloc_strict c then gc_accepted c && negb m
+      else negb (Bool.eqb m (gc_accepted c)) ||
+           (gc_accepted c && match gc_stored c, stored op (gc_x c) with
+                             | Some y, Some y' => negb (value_same y y')
+                             | _, _ => false
+                             end)
+  | _, _ => true
+  end.
+
+(* LITERAL: the quantities that count something (pixels, bits).  The documented range does not say that they are whole
+   numbers, so a fractional value inside the range may be accepted — or refused: both are right, as long as an accepted
+   value is the value the field then holds. *)
+Definition integer_like : list fkey :=
+  [(CGeometry, "row"%string); (CGeometry, "col"%string);
+   (CCharacteristics, "adc_bit_resolution"%string); (CAPDCharacteristics, "adc_bit_resolution"%string)].
+
+Definition q_is_whole (q : Q) : bool := Qeq_bool (q_trunc q) q.
+
+Definition may_be_refused (c : gcase) : bool :=
+  alloc_strict c ||
+  (existsb (fkey_eqb (gc_key c)) integer_like &&
+   match core_of (gc_x c) with VNum q => negb (q_is_whole q) | _ => false end).
+
+(* the specification: accepted iff inside the documented range (None: iff optional, constructor only; a fractional
+   value of an integer-like quantity, and a float array size in a document: refused, or accepted only if inside); and
+   what the field holds after an accepted value IS that value (so it satisfies the documented limit as well) *)
 Definition gcase_violates (c : gcase) : bool :=
   match lookup_doc documented (gc_key c) with
   | None => false
@@ -653,36 +837,101 @@ Definition gcase_violates (c : gcase) : bool :=
           | SCtor => negb (Bool.eqb (gc_accepted c) (d_optional r))
           | SSetter => false
           end
-      | x => well_kinded (d_range r) x && negb (agrees (gc_accepted c) (d_range r) x)
-      end
+      | x => well_kinded (d_range r) x &&
+             (if may_be_refused c then gc_accepted c && negb (in_range (d_range r) x)
+              else negb (agrees (gc_accepted c) (d_range r) x))
+      end ||
+      (gc_accepted c && match gc_stored c with
+                        | Some y => negb (value_same y (gc_x c)) ||
+                                    (well_kinded (d_range r) y && negb (in_range (d_range r) y))
+                        | None => false
+                        end)
   end.
 
-Definition g_mismatches (gt : guard_table) (cs : list gcase) : list Z := indices_where (gcase_mismatch gt) cs 0.
+Definition g_mismatches (gt : guard_table) (st : store_table) (cs : list gcase) : list Z :=
+  indices_where (gcase_mismatch gt st) cs 0.
 Definition g_violations (cs : list gcase) : list Z := indices_where gcase_violates cs 0.
 
-(* a document with the given top-level keys; observed = did pyxel.load accept it, and which sections it used *)
-Record ecase := ECase { ec_present : list string; ec_loaded : bool; ec_used : list string }.
+(* a document: what it holds under each top-level key (keys not listed: absent); observed = did pyxel.load accept it,
+   and which sections the loaded configuration has *)
+Record ecase := ECase { ec_doc : list (string * sstate); ec_loaded : bool; ec_used : list string }.
 
-Definition present_of (keys : list string) (k : string) : bool := existsb (String.eqb k) keys.
-
-Definition used_sections (present : string -> bool) : list string :=
-  match first_present mode_keys present, first_present detector_keys present with
-  | Some m, Some d => [m; d]
-  | _, _ => []
+Fixpoint state_of (doc : list (string * sstate)) (k : string) : sstate :=
+  match doc with
+  | [] => SAbsent
+  | (k', s) :: rest => if String.eqb k' k then s else state_of rest k
   end.
 
-Definition ecase_mismatch (checks : list presence_check) (c : ecase) : bool :=
-  negb (Bool.eqb (config_accepts checks (present_of (ec_present c))) (ec_loaded c)).
+Definition present_of (keys : list string) (k : string) : bool := existsb (String.eqb k) keys.
+Definition filled_doc (keys : list string) : list (string * sstate) := map (fun k => (k, SFilled)) keys.
 
+Definition pair_list (o : option (string * string)) : list string :=
+  match o with Some (m, d) => [m; d] | None => [] end.
+
+(* model vs implementation.  The model says which sections are handed to their builders; a builder may still refuse a
+   section that is empty (to_observation(None) ...), so for an empty section only "if it loads, it is that one" is
+   compared. *)
+Definition ecase_mismatch (pre post : list presence_check) (mdisp ddisp : list string) (c : ecase) : bool :=
+  let st := state_of (ec_doc c) in
+  match dispatch pre post mdisp ddisp st with
+  | None => ec_loaded c
+  | Some (m, d) =>
+      if st_filled (st m) && st_filled (st d)
+      then negb (ec_loaded c && list_string_eqb (ec_used c) [m; d])
+      else ec_loaded c && negb (list_string_eqb (ec_used c) [m; d])
+  end.
+
+Definition the_only (p : string -> bool) (keys : list string) : option string :=
+  match filter p keys with [k] => Some k | _ => None end.
+
+(* the section a document MEANS for a group of keys: the only key present; with several keys present — which the
+   loader should refuse — at the very least never another one than the only FILLED section *)
+Definition meant (keys : list string) (st : string -> sstate) : option string :=
+  match the_only (fun k => st_present (st k)) keys with
+  | Some k => Some k
+  | None => match filter (fun k => st_present (st k)) keys with
+            | [] => None
+            | _ => the_only (fun k => st_filled (st k)) keys
+            end
+  end.
+
+(* THE SPECIFICATION on a document with section states:
+   - it loads only if, for the modes and for the detectors, a section is meant, and then exactly these two are used;
+   - a document with exactly one filled mode section, exactly one filled detector section and no other mode /
+     detector key must load. *)
 Definition ecase_violates (c : ecase) : bool :=
-  let p := present_of (ec_present c) in
-  let want := exactly_one_b mode_keys p && exactly_one_b detector_keys p in
-  negb (Bool.eqb want (ec_loaded c)) ||
-  (ec_loaded c && negb (list_string_eqb (ec_used c) (used_sections p))).
+  let st := state_of (ec_doc c) in
+  if ec_loaded c then
+    match meant mode_keys st, meant detector_keys st with
+    | Some m, Some d => negb (list_string_eqb (ec_used c) [m; d])
+    | _, _ => true
+    end
+  else
+    match the_only (fun k => st_present (st k)) mode_keys, the_only (fun k => st_present (st k)) detector_keys with
+    | Some m, Some d => st_filled (st m) && st_filled (st d)
+    | _, _ => false
+    end.
 
-Definition e_mismatches (checks : list presence_check) (cs : list ecase) : list Z :=
-  indices_where (ecase_mismatch checks) cs 0.
+Definition e_mismatches (pre post : list presence_check) (mdisp ddisp : list string) (cs : list ecase) : list Z :=
+  indices_where (ecase_mismatch pre post mdisp ddisp) cs 0.
 Definition e_violations (cs : list ecase) : list Z := indices_where ecase_violates cs 0.
+
+(* Configuration(pipeline=..., <objects>) called directly with the given running-mode / detector objects (building the
+   same objects in Python): only the checks on the built objects (Configuration.__post_init__) stand in the way *)
+Record ccase := CCase { cc_given : list string; cc_accepted : bool }.
+
+Definition given_state (given : list string) (k : string) : sstate :=
+  if present_of given k then SFilled else SAbsent.
+
+Definition ccase_mismatch (post : list presence_check) (c : ccase) : bool :=
+  negb (Bool.eqb (checks_pass post (given_state (cc_given c))) (cc_accepted c)).
+
+Definition ccase_violates (c : ccase) : bool :=
+  let p := present_of (cc_given c) in
+  negb (Bool.eqb (exactly_one_b mode_keys p && exactly_one_b detector_keys p) (cc_accepted c)).
+
+Definition c_mismatches (post : list presence_check) (cs : list ccase) : list Z := indices_where (ccase_mismatch post) cs 0.
+Definition c_violations (cs : list ccase) : list Z := indices_where ccase_violates cs 0.
 
 (* a flattened document, the defaults that apply to it, and the settings read back from the loaded objects *)
 Record scase := SCase { sc_doc : list entry; sc_defaults : list entry; sc_observed : list entry }.
